@@ -78,11 +78,11 @@ CLAIMED["C17"] = ("DESIGN.md §4 C17",
 
 CLAIMED["C14"] = ("DESIGN.md §4 C14",
     "Each numeric date/time directive of the real DATETIME_FIELD_MAP is rendered for symbolic clock fields (all hours, "
-    "minutes, seconds, microseconds) and symbolic calendar fields (years 1000..9999, all months, days 1..28): z3 shows the "
+    "minutes, seconds, microseconds) and symbolic calendar fields (all valid dates of years 1000..9999): z3 shows the "
     "text has the documented width and denotes the field; the real format scanner equals a reference scanner on every "
     "format string of <= 3/4 arbitrary characters; whole-second durations read back unit by unit for all unit pairs and styles.",
     "trusted: pysym, exact-integer datetime/strftime model (C locale), lemma cut for int(d/k); outside: names, W/ww/F, "
-    "sub-second durations, automatic units, days 29..31")
+    "sub-second durations, automatic units")
 
 CLAIMED["C01"] = ("DESIGN.md §4 C01",
     "Record-level write/read: the real Cell._from_value -> _to_buffer -> _from_storage (incl. decimal128 pack/unpack) is "
